@@ -542,6 +542,13 @@ def index(base, key):
         its = {x for x in value_atoms(a[2][0]) if x[0] == 'iter'}
         if src is not None and src[0] == 'app' and src[1] in ('range', 'arange') and len(src[2]) == 1 and len(its) == 1:
             return subst_value(a[2][0], {next(iter(its)): key})
+        # [body(seq[i]) for .. in seq][k] = body(seq[k]): the body reads the sequence only at the comprehension's position
+        if src is not None and len(its) == 1 and _scalar_index(key):
+            it = next(iter(its))
+            uses = [x for x in value_atoms(a[2][0]) if x[0] == 'idx' and x[1] == src]
+            if uses and all(x[2] == Poly.atom(it) for x in uses) and \
+                    it not in value_atoms(subst_value(a[2][0], {x: sym('@elem') for x in uses})):
+                return subst_value(a[2][0], {it: key})
     if a[0] == 'app' and a[1] == 'setitem' and len(a[2]) == 3 and a[2][1] == key and isinstance(a[2][2], Poly) \
             and isinstance(key, (Poly, Slice, Tup)):
         return a[2][2]            # read back what was just stored under the same key
